@@ -208,4 +208,38 @@ def buildSpecialKeyJson (texts : List Bytes) (order : List (Bytes × Bytes)) : B
   let jb := (sortNames (order.map (·.1))).foldl (fun (jb : JB) k => jb.writeString k (mapGet [] order k)) jb
   jb.close.sb
 
+/-! ### the rest of pkg/minijson: `WriteInt`, `KeyCount`, `MarshalStringMapInferred` (util.go) -/
+
+/-- `WriteInt(key, val)`: `writeKey` then `strconv.Itoa(val)` -/
+def JB.writeInt (j : JB) (key : Bytes) (val : Int) : JB := j.writeLiteral key (itoa val)
+
+/-- `MarshalStringMapInferred(s)` (pkg/minijson/util.go; despite its name every value is written with
+`WriteString`): `for k, v := range s { jb.WriteString(k, v) }` – NOT sorted, `order` = the entries as this
+`range` produced them.  Not called by any command. -/
+def marshalStringMap (order : List (Bytes × Bytes)) : Bytes :=
+  (order.foldl (fun (jb : JB) p => jb.writeString p.1 p.2) JB.opened).close.sb
+
+/-! ### `rare expression -k name=value` (cmd/expressions.go) -/
+
+/-- `strings.IndexByte(s, c)` -/
+def indexByte (s : Bytes) (c : UInt8) : Int := if s.idxOf c < s.length then (s.idxOf c : Nat) else -1
+
+/-- `parseKeyValue(s)`: split at the FIRST `=`; without one the whole argument is key and value -/
+def parseKeyValue (s : Bytes) : Bytes × Bytes :=
+  let idx := indexByte s 0x3d
+  if idx < 0 then (s, s) else (s.take idx.toNat, s.drop (idx.toNat + 1))
+
+/-- `parseKeyValuesIntoMap(kvs...)`: `for _, item := range kvs { k, v := parseKeyValue(item); ret[k] = v }` -/
+def parseKeyValuesIntoMap (kvs : List Bytes) : List (Bytes × Bytes) :=
+  kvs.foldl (fun m item => mapSet m (parseKeyValue item).1 (parseKeyValue item).2) []
+
+/-- The "Emulate special keys" block of `expressionFunction`: the value of `expCtx.Keys[key]` for the four
+JSON keys, given `--data` arguments `data`, `--key` arguments `kvs`; `order` = the entries of
+`parseKeyValuesIntoMap(keyPairs...)` in the order `range` produced them.  `none` = another key. -/
+def expressionJsonKey (key : Bytes) (data : List Bytes) (order : List (Bytes × Bytes)) : Option Bytes :=
+  if key = [0x2e] then some (buildSpecialKeyJson [] order)
+  else if key = [0x23] then some (buildSpecialKeyJson data [])
+  else if key = [0x2e, 0x23] ∨ key = [0x23, 0x2e] then some (buildSpecialKeyJson data order)
+  else none
+
 end Rare.C16
